@@ -11,9 +11,11 @@ import sys
 import time
 
 ROOT = os.path.dirname(os.path.dirname(os.path.abspath(__file__)))
-EVID = os.path.join(ROOT, 'evidence')
-REPLAYS = os.path.join(ROOT, 'replays')
-CACHE = os.path.join(ROOT, '.cache')
+# EQLVC_OUT redirects everything a run writes (used when the checks are run against a scratch copy with a seeded change)
+OUT = os.environ.get('EQLVC_OUT', ROOT)
+EVID = os.path.join(OUT, 'evidence')
+REPLAYS = os.path.join(OUT, 'replays')
+CACHE = os.path.join(OUT, '.cache')
 KNOWN = os.path.join(ROOT, 'known_findings.json')
 VENV_PY = '/venv/bin/python'
 
